@@ -19,7 +19,14 @@ Op language (a case = everything from a `reset` to the next one):
     ack c=<i>                          … the next HandshakeAck makes it working again
     wrap k=<n>                         (only right after reset) the front's service-request counter is set n below
                                        MaxReqId, so the next forwarded requests are numbered across the wrap
+    flood c=<i> n=<N> id0=<a> v0=<b> route=<r>
+                                       client i stops reading; N requests (ids a..a+N-1, payloads v<b>..) are written
+                                       back-to-back — more than the session's send queue holds —; the client resumes
+                                       reading.  Same as the N-item `reqs`.
     adv                                5 s of virtual time pass
+
+A route may contain `%xx` escapes: raw bytes (to send routes that are not valid UTF-8); the model sees
+each such byte as U+FFFD (`routeSerialisable`).
     flush                              45 s pass (every handler delay and the 30 s forward timeout are over)
 
 Observation of reqs/pipe/adv/flush (hs/ack/wrap: `ok`): `r=<a>,<b>,… i=<x>,<y>,…` — `r` the multiset (sorted) of
@@ -62,15 +69,29 @@ structure Item where
   route : String
   pay : Pay
 
+/-- `%xx` (a raw byte, only used for bytes that break UTF-8) → U+FFFD -/
+def unescape : List Char → List Char
+  | '%' :: _ :: _ :: rest => '\uFFFD' :: unescape rest
+  | c :: rest => c :: unescape rest
+  | [] => []
+
+def routeOf (s : String) : String := String.ofList (unescape s.toList)
+
 def parseItem (s : String) : Option Item :=
   match s.splitOn "," with
   | [c, id, route, pay] =>
     match c.toNat?, id.toNat? with
-    | some c, some id => some ⟨c, id, route, parsePay pay⟩
+    | some c, some id => some ⟨c, id, routeOf route, parsePay pay⟩
     | _, _ => none
   | _ => none
 
 def parseItems (ws : List String) : List Item :=
+  if ws.head? = some "flood" then
+    match kvNat ws "c", kvNat ws "n", kvNat ws "id0", kvNat ws "v0", kv ws "route" with
+    | some c, some n, some id0, some v0, some r =>
+      (List.range n).map fun k => ⟨c, id0 + k, routeOf r, .v (v0 + k)⟩
+    | _, _, _, _, _ => []
+  else
   match kv ws "q" with
   | none => []
   | some q => (q.splitOn "|").filterMap parseItem
@@ -126,7 +147,7 @@ def modelStep (m : MState) (line : String) : MState × String :=
     match kvNat ws "c", kv ws "to" with
     | some c, some t => (m.bind c (if t = "-" then "" else t), "ok")
     | _, _ => (m, "bad-op")
-  | some "reqs" =>
+  | some "reqs" | some "flood" =>
     applyOps m (((parseItems ws).filter fun it => ¬ m.hsing.contains it.c).map fun it =>
       .req (m.sess it.c) ⟨it.id, it.route, it.pay.toModel⟩)
   | some "hs" =>
@@ -379,7 +400,7 @@ def specStep (st : SState) (line : String) : SState × String :=
       match kvNat ws "c" with
       | some c => ({ st with hsing := st.hsing.filter (· ≠ c) }, "ok")
       | none => (st, "ok")
-    | some "reqs" => specReqs st ws obs false
+    | some "reqs" | some "flood" => specReqs st ws obs false
     | some "pipe" => specReqs st ws obs true
     | some "adv" => observe st obs false
     | some "flush" => observe st obs true
